@@ -9,6 +9,10 @@ import (
 
 	ethcrypto "github.com/ethereum/go-ethereum/crypto"
 
+	agov "github.com/Oneledger/protocol/action/governance"
+	"github.com/Oneledger/protocol/data/balance"
+	"github.com/Oneledger/protocol/data/governance"
+
 	"verif/hist"
 	"verif/run"
 	"verif/sim"
@@ -50,6 +54,40 @@ func TestMakeSeeds(t *testing.T) {
 		block([][]string{{"olvm-call"}}, txgen.OLVM(e, txgen.OLVMArgs{ChainID: p.ChainID, Nonce: 1, To: &c, Data: make([]byte, 32), Fee: fee}))
 		block(nil)
 		write(t, dir, "kf-olvm-selfdestruct-keeps-balance.json", "value-created", "C02/value-created/OLT/OLVM/selfdestruct", tr)
+	}
+
+	// PROPOSAL_WITHDRAW_FUNDS with a negative amount: the escrow grows and the named beneficiary is debited
+	{
+		p := sim.DefaultParams()
+		p.Seed = "seed-withdraw-funds-negative"
+		g := sim.BuildGenesis(p)
+		u := g.U.Users
+		fee := txgen.DefaultFee()
+		tr := &hist.Trace{Params: p, Roles: hist.Roles(p, 1), Profile: "hand:withdraw-funds-negative"}
+		block := func(tags [][]string, txs ...txgen.Tx) {
+			spec := sim.BlockSpec{GapSecs: 5}
+			for i := range txs {
+				spec.Txs = append(spec.Txs, txs[i].Bytes)
+				if i < len(tags) {
+					txs[i].Tags = tags[i]
+				}
+			}
+			tr.Steps = append(tr.Steps, hist.BlockStep(spec, txs))
+		}
+		block(nil)
+		id := txgen.ProposalID("seed-p1")
+		initial, _ := new(big.Int).SetString(p.PropInitialFunding, 10)
+		goal, _ := new(big.Int).SetString(p.PropFundingGoal, 10)
+		// created in block 2, funding deadline 3: from block 4 on the funds can be withdrawn
+		m := agov.CreateProposal{ProposalID: id, ProposalType: governance.ProposalTypeGeneral, Headline: "h", Description: "d", Proposer: u[0].Addr,
+			InitialFunding: txgen.Amt("OLT", initial), FundingDeadline: 3, FundingGoal: balance.NewAmountFromBigInt(goal),
+			VotingDeadline: 3 + p.PropVotingDL, PassPercentage: p.PropPassPct}
+		block([][]string{{"amt-ok"}}, txgen.ProposalCreate(u[0], m, fee, "m1"))
+		block(nil)
+		neg := new(big.Int).Neg(new(big.Int).Lsh(big.NewInt(1), 200))
+		block([][]string{{"amt-neg-huge", "addr-user", "cur-ok"}}, txgen.ProposalWithdrawFunds(u[0], id, u[0].Addr, u[1].Addr, txgen.Amt("OLT", neg), fee, "m2"))
+		block(nil)
+		write(t, dir, "kf-withdraw-funds-negative.json", "negative-amount", "C02/negative-amount/balance/PROPOSAL_WITHDRAW_FUNDS/amt-neg", tr)
 	}
 }
 
